@@ -37,6 +37,87 @@ def make_if():
     return dif
 
 
+class QueueSock(MemSock):
+    """in-memory UDP socket: recvfrom(n) hands out the next queued datagram cut to n octets (what a UDP
+    socket does with a longer datagram)"""
+    def __init__(self):
+        MemSock.__init__(self)
+        self.queue = []
+    def recvfrom(self, n):
+        data = self.queue.pop(0)
+        return bytes(data[:n]), ("127.0.0.1", 5702)
+    def setsockopt(self, *a):
+        pass
+    def bind(self, *a):
+        pass
+    def setblocking(self, *a):
+        pass
+
+
+def make_real_if():
+    """a DATAInterface built by the real DATAInterface.__init__ / UDPLink.__init__; only socket.socket()
+    is answered with an in-memory socket while the constructor runs"""
+    import udp_link
+    real = udp_link.socket.socket
+    udp_link.socket.socket = lambda *a, **k: QueueSock()
+    try:
+        return data_if.DATAInterface("127.0.0.1", 5702, "127.0.0.1", 0)
+    finally:
+        udp_link.socket.socket = real
+
+
+def show_recv(tag, r):
+    if r is None:
+        return tag + " None"
+    if isinstance(r, TxMsg):
+        return tag + " " + show_tx(r)
+    if isinstance(r, RxMsg):
+        return tag + " " + show_rx(r)
+    return tag + " " + repr(r).replace(" ", "_")
+
+
+def handle_if(tok):
+    verb = tok[0]
+    if verb == "trxdif.hist":
+        dif = make_real_if()
+        out, i = [], 1
+        while i < len(tok):
+            op = tok[i]
+            if op == "V":
+                out.append("s " + repr(dif.set_hdr_ver(int(tok[i + 1]))).replace(" ", "_"))
+            elif op in ("T", "R"):
+                dif.sock.queue.append(octets(tok[i + 1]))
+                try:
+                    out.append(show_recv("t", dif.recv_tx_msg()) if op == "T" else show_recv("r", dif.recv_rx_msg()))
+                except Exception as e:
+                    out.append("E " + type(e).__name__)
+            else:
+                raise AssertionError("bad interface operation")
+            i += 2
+        return "ok " + " ; ".join(out) + " | " + repr(dif._hdr_ver).replace(" ", "_")
+    if verb == "trxdif.parses":
+        out, i = [], 1
+        while i < len(tok):
+            try:
+                if tok[i] == "T":
+                    m = TxMsg()
+                    m.parse_msg(octets(tok[i + 1]))
+                    out.append("T " + show_tx(m))
+                elif tok[i] == "R":
+                    m = RxMsg()
+                    m.parse_msg(bytearray(octets(tok[i + 1])))
+                    out.append("R " + show_rx(m))
+                else:
+                    raise AssertionError("bad item")
+            except AssertionError:
+                raise
+            except Exception as e:
+                out.append("E " + type(e).__name__)
+            i += 2
+        return "ok " + " ; ".join(out)
+    return "bad-op"
+
+
 def opt_int(s):
     return None if s == "-" else int(s)
 
@@ -319,6 +400,8 @@ def handle(tok):
     verb = tok[0]
     if verb.startswith("dump."):
         return handle_dump(tok)
+    if verb.startswith("trxdif."):
+        return handle_if(tok)
     if verb in ("trxd.tx.validate", "trxd.rx.validate"):
         m = mk_tx(tok[1:]) if ".tx." in verb else mk_rx(tok[1:])
         m.validate()
